@@ -1,21 +1,12 @@
 (* C13: the validating walker accepts exactly the conforming values. *)
 From Coq Require Import List ZArith String Bool Arith Lia.
 From SMD Require Import Model.Value Model.Order Model.PathElem Model.PathSet Model.Schema
-  Model.Walk Model.Validate Spec.RefValid Proofs.OrderLaws Proofs.PathSetLaws.
+  Model.Walk Model.Validate Spec.RefValid Spec.Examples Proofs.OrderLaws Proofs.PathSetLaws
+  Proofs.SchemaOk.
 Import ListNotations.
+(* Spec.Examples opens string_scope; put lists and booleans back on top *)
+Open Scope list_scope.
 Open Scope bool_scope.
-
-(* default values declared in the schema are well formed (they become key values) *)
-Fixpoint wf_defaults_fields (fs : list sfield) : bool :=
-  match fs with
-  | [] => true
-  | SField _ _ d :: rest => match d with Some v => wf_value v | None => true end && wf_defaults_fields rest
-  end.
-Definition wf_defaults_atom (a : atom) : bool :=
-  match a with Atom _ _ (Some (MapT fs _ _)) => wf_defaults_fields fs | _ => true end.
-(* every atom reachable through [resolve] has well-formed defaults *)
-Definition wf_schema (s : schema) : Prop :=
-  forall tr a, resolve s tr = Some a -> wf_defaults_atom a = true.
 
 (* ------------------------------------------------------------------ *)
 (* top-level mirrors of the inner loops *)
@@ -197,22 +188,22 @@ Proof.
       inversion Hf; subst. simpl in Hd. subst. exact Hd0.
 Qed.
 
-Lemma key_default_wf : forall s t k d, wf_schema s ->
+Lemma key_default_wf : forall s R t k d, schema_ok s R -> R (list_elem t) ->
   key_default s t k = Some (Some d) -> wf_value d = true.
 Proof.
-  intros s t k d Hs. unfold key_default.
+  intros s R t k d Hs Hel. unfold key_default.
   destruct (resolve s (list_elem t)) as [a|] eqn:Er; [|discriminate].
-  apply Hs in Er. destruct a as [sc li [mt|]]; [|discriminate].
+  apply (so_defaults s R Hs _ _ Hel) in Er. destruct a as [sc li [mt|]]; [|discriminate].
   destruct mt as [fs me mr]. simpl in Er. simpl.
   destruct (find_field fs k) as [f|] eqn:Ef; [|discriminate].
   intros Hd. inversion Hd as [Hd']. eapply find_field_default_wf; eassumption.
 Qed.
 
-Lemma keyed_go_wf : forall s t m, wf_schema s ->
+Lemma keyed_go_wf : forall s R t m, schema_ok s R -> R (list_elem t) ->
   forallb (fun kv => wf_value (snd kv)) m = true ->
   forall keys fl, keyed_go s t m keys = Some fl -> wf_fl fl = true.
 Proof.
-  intros s t m Hs Hm keys. induction keys as [|k ks IH]; simpl; intros fl Hgo.
+  intros s R t m Hs Hel Hm keys. induction keys as [|k ks IH]; simpl; intros fl Hgo.
   - inversion Hgo; subst. reflexivity.
   - destruct (assoc_get k m) as [v|] eqn:Eg.
     + destruct (keyed_go s t m ks) as [r|]; [|discriminate].
@@ -221,13 +212,13 @@ Proof.
     + destruct (key_default s t k) as [[d|]|] eqn:Ed; try discriminate.
       destruct (keyed_go s t m ks) as [r|]; [|discriminate].
       inversion Hgo; subst. unfold wf_fl. simpl.
-      rewrite (key_default_wf _ _ _ _ Hs Ed). simpl. apply (IH r). reflexivity.
+      rewrite (key_default_wf _ _ _ _ _ Hs Hel Ed). simpl. apply (IH r). reflexivity.
 Qed.
 
-Lemma list_item_to_pe_wf : forall s t child e, wf_schema s -> wf_value child = true ->
-  list_item_to_pe s t child = Some e -> wf_pe e = true.
+Lemma list_item_to_pe_wf_el : forall s R t child e, schema_ok s R -> R (list_elem t) ->
+  wf_value child = true -> list_item_to_pe s t child = Some e -> wf_pe e = true.
 Proof.
-  intros s t child e Hs Hc. unfold list_item_to_pe.
+  intros s R t child e Hs Hel Hc. unfold list_item_to_pe.
   destruct (negb (rel_is_assoc (list_rel t))); [discriminate|].
   destruct (list_keys t) as [|k0 ks0] eqn:Ek.
   - destruct child; simpl; intros He; try discriminate; inversion He; subst; reflexivity.
@@ -239,10 +230,20 @@ Proof.
     eapply keyed_go_wf; eassumption.
 Qed.
 
+(* the list type handed to the walker is the list member of the atom resolved from tr *)
+Lemma list_item_to_pe_wf : forall s R tr a t child e, schema_ok s R -> R tr ->
+  resolve s tr = Some a -> atom_list a = Some t -> wf_value child = true ->
+  list_item_to_pe s t child = Some e -> wf_pe e = true.
+Proof.
+  intros s R tr a t child e Hs Htr Hr Ha Hc He.
+  eapply list_item_to_pe_wf_el; try eassumption.
+  eapply so_list; eassumption.
+Qed.
+
 (* ------------------------------------------------------------------ *)
 (* the loops *)
-Definition vP (s : schema) (dup : bool) (x : value) : Prop :=
-  forall tr, wf_value x = true -> validate s dup tr x = negb (conforms s tr dup x).
+Definition vP (s : schema) (R : typeref -> Prop) (dup : bool) (x : value) : Prop :=
+  forall tr, R tr -> wf_value x = true -> validate s dup tr x = negb (conforms s tr dup x).
 
 Lemma existsb_ext_in : forall (A : Type) (f g : A -> bool) (l : list A),
   (forall x, In x l -> f x = g x) -> existsb f l = existsb g l.
@@ -261,33 +262,36 @@ Proof.
   - rewrite IH. destruct (f a), (g a), (existsb f l), (existsb g l); reflexivity.
 Qed.
 
-Lemma pes_of_wf : forall s t l, wf_schema s -> forallb wf_value l = true ->
+Lemma pes_of_wf : forall s R t l, schema_ok s R -> R (list_elem t) ->
+  forallb wf_value l = true ->
   forall e, In e (pes_of s t l) -> wf_pe e = true.
 Proof.
-  intros s t l Hs. induction l as [|x l IH]; simpl; intros Hl e He.
+  intros s R t l Hs Hel. induction l as [|x l IH]; simpl; intros Hl e He.
   - contradiction.
   - apply andb_true_iff in Hl. destruct Hl as [Hx Hl].
     apply in_app_or in He. destruct He as [He|He].
     + destruct (list_item_to_pe s t x) as [e0|] eqn:Ee; simpl in He; [|contradiction].
-      destruct He as [He|[]]. subst e0. eapply list_item_to_pe_wf; eassumption.
+      destruct He as [He|[]]. subst e0. eapply list_item_to_pe_wf_el; eassumption.
     + apply IH; assumption.
 Qed.
 
-Lemma vlist_go_nonassoc : forall s dup t, rel_is_assoc (list_rel t) = false ->
-  forall l, forallb wf_value l = true -> Forall (vP s dup) l ->
+Lemma vlist_go_nonassoc : forall s (R : typeref -> Prop) dup t, R (list_elem t) ->
+  rel_is_assoc (list_rel t) = false ->
+  forall l, forallb wf_value l = true -> Forall (vP s R dup) l ->
   forall obs, vlist_go s dup t l obs = negb (forallb (fun x => conforms s (list_elem t) dup x) l).
 Proof.
-  intros s dup t Hrel l. induction l as [|x rest IHl]; intros Hwf HP obs.
+  intros s R dup t Hel Hrel l. induction l as [|x rest IHl]; intros Hwf HP obs.
   - reflexivity.
   - simpl in Hwf. apply andb_true_iff in Hwf. destruct Hwf as [Hwx Hwrest].
     inversion HP as [|x' rest' HPx HPrest]; subst.
     simpl. rewrite Hrel. simpl.
-    rewrite (HPx (list_elem t) Hwx). rewrite (IHl Hwrest HPrest obs).
+    rewrite (HPx (list_elem t) Hel Hwx). rewrite (IHl Hwrest HPrest obs).
     rewrite negb_andb. reflexivity.
 Qed.
 
-Lemma vlist_go_assoc : forall s dup t, wf_schema s -> rel_is_assoc (list_rel t) = true ->
-  forall l, forallb wf_value l = true -> Forall (vP s dup) l ->
+Lemma vlist_go_assoc : forall s R dup t, schema_ok s R -> R (list_elem t) ->
+  rel_is_assoc (list_rel t) = true ->
+  forall l, forallb wf_value l = true -> Forall (vP s R dup) l ->
   forall obs, sorted_pes obs = true -> wf_pes obs = true ->
   vlist_go s dup t l obs =
   negb (forallb (has_pe s t) l
@@ -295,20 +299,20 @@ Lemma vlist_go_assoc : forall s dup t, wf_schema s -> rel_is_assoc (list_rel t) 
         && (dup || (all_distinct (pes_of s t l)
                     && negb (existsb (fun e => pes_mem e obs) (pes_of s t l))))).
 Proof.
-  intros s dup t Hs Hrel l. induction l as [|x rest IHl]; intros Hwf HP obs Hsorted Hwfo.
+  intros s R dup t Hs Hel Hrel l. induction l as [|x rest IHl]; intros Hwf HP obs Hsorted Hwfo.
   - simpl. destruct dup; reflexivity.
   - simpl in Hwf. apply andb_true_iff in Hwf. destruct Hwf as [Hwx Hwrest].
     inversion HP as [|x' rest' HPx HPrest]; subst.
     assert (Hwfrest : forall e', In e' (pes_of s t rest) -> wf_pe e' = true)
-      by (apply pes_of_wf; assumption).
+      by (eapply pes_of_wf; eassumption).
     simpl vlist_go. rewrite Hrel. simpl negb at 1. cbv iota.
     simpl forallb. unfold has_pe at 1. unfold pes_of at 1 2. simpl flat_map.
     fold (pes_of s t rest).
     destruct (list_item_to_pe s t x) as [e|] eqn:Ee.
-    + assert (Hwe : wf_pe e = true) by (eapply list_item_to_pe_wf; eassumption).
+    + assert (Hwe : wf_pe e = true) by (eapply list_item_to_pe_wf_el; eassumption).
       destruct (pes_insert_sorted e obs Hsorted Hwfo Hwe) as [Hsorted' Hwfo'].
       rewrite (IHl Hwrest HPrest (pes_insert e obs) Hsorted' Hwfo').
-      rewrite (HPx (list_elem t) Hwx).
+      rewrite (HPx (list_elem t) Hel Hwx).
       rewrite (pes_has_spec e obs Hsorted Hwfo Hwe).
       rewrite (existsb_ext_in _ (fun e' => pes_mem e' (pes_insert e obs))
                  (fun e' => peeqb e e' || pes_mem e' obs) (pes_of s t rest)).
@@ -326,33 +330,36 @@ Proof.
     + reflexivity.
 Qed.
 
-Lemma vmap_go_spec : forall s dup t m,
+Lemma vmap_go_spec : forall s (R : typeref -> Prop) dup t m, (forall k, R (field_type t k)) ->
   forallb (fun kv => wf_value (snd kv)) m = true ->
-  Forall (fun kv => vP s dup (snd kv)) m ->
+  Forall (fun kv => vP s R dup (snd kv)) m ->
   vmap_go s dup t m = negb (cmap_each s dup t m).
 Proof.
-  intros s dup t m. induction m as [|[k x] rest IHm]; intros Hwf HP.
+  intros s R dup t m Hft. induction m as [|[k x] rest IHm]; intros Hwf HP.
   - reflexivity.
   - simpl in Hwf. apply andb_true_iff in Hwf. destruct Hwf as [Hwx Hwrest].
     inversion HP as [|kv' rest' HPx HPrest]; subst. simpl in HPx.
     simpl. rewrite (IHm Hwrest HPrest).
-    destruct (has_field t k).
-    + rewrite (HPx _ Hwx). rewrite negb_andb. reflexivity.
-    + destruct (is_empty_tr (map_elem t)); simpl.
+    destruct (has_field t k) eqn:Ehf.
+    + rewrite (HPx _ (Hft k) Hwx). rewrite negb_andb. reflexivity.
+    + assert (Hme : R (map_elem t)).
+      { generalize (Hft k). unfold field_type. unfold has_field in Ehf.
+        destruct (find_field (map_fields t) k); [discriminate|]. auto. }
+      destruct (is_empty_tr (map_elem t)); simpl.
       * reflexivity.
-      * rewrite (HPx _ Hwx). rewrite negb_andb. reflexivity.
+      * rewrite (HPx _ Hme Hwx). rewrite negb_andb. reflexivity.
 Qed.
 
 Lemma existsb_false : forall (A : Type) (l : list A), existsb (fun _ => false) l = false.
 Proof. intros A l. induction l as [|a l IH]; simpl; auto. Qed.
 
-Theorem validate_exact : forall s dup tr v, wf_schema s -> wf_value v = true ->
+Theorem validate_exact : forall s R dup tr v, schema_ok s R -> R tr -> wf_value v = true ->
   validate s dup tr v = negb (conforms s tr dup v).
 Proof.
-  intros s dup tr v Hs. revert tr. change (vP s dup v).
-  induction v as [|b|z|q|str|l IHl|m IHm] using value_ind'; intros tr Hwf;
+  intros s R dup tr v Hs. revert tr. change (vP s R dup v).
+  induction v as [|b|z|q|str|l IHl|m IHm] using value_ind'; intros tr Htr Hwf;
     rewrite validate_eq, conforms_eq;
-    (destruct (resolve s tr) as [[sc li ma]|]; [|reflexivity]).
+    (destruct (resolve s tr) as [[sc li ma]|] eqn:Er; [|reflexivity]).
   - (* null *)
     destruct sc, li, ma; reflexivity.
   - destruct sc as [[]|], li, ma; reflexivity.
@@ -361,17 +368,20 @@ Proof.
   - destruct sc as [[]|], li, ma; reflexivity.
   - (* list *)
     destruct li as [t|].
-    + simpl deduce_atom. simpl handle_atom. simpl in Hwf.
+    + assert (Hel : R (list_elem t)) by (eapply (so_list s R Hs); [exact Htr|exact Er|reflexivity]).
+      simpl deduce_atom. simpl handle_atom. simpl in Hwf.
       destruct (list_rel t) eqn:Erel;
-        try (apply vlist_go_nonassoc; [rewrite Erel; reflexivity|assumption|assumption]).
-      rewrite (vlist_go_assoc s dup t Hs) by (try rewrite Erel; auto).
+        try (apply (vlist_go_nonassoc s R); [exact Hel|rewrite Erel; reflexivity|assumption|assumption]).
+      rewrite (vlist_go_assoc s R dup t Hs Hel) by (try rewrite Erel; auto).
       simpl pes_mem. rewrite existsb_false. simpl. rewrite andb_true_r. reflexivity.
     + destruct sc as [[]|], ma; reflexivity.
   - (* map *)
     destruct ma as [t|].
-    + simpl deduce_atom. simpl handle_atom. simpl in Hwf.
+    + assert (Hft : forall k, R (field_type t k))
+        by (intros k; eapply (so_map s R Hs); [exact Htr|exact Er|reflexivity]).
+      simpl deduce_atom. simpl handle_atom. simpl in Hwf.
       apply andb_true_iff in Hwf. destruct Hwf as [_ Hwf].
-      apply vmap_go_spec; assumption.
+      apply (vmap_go_spec s R); assumption.
     + destruct sc as [[]|], li; reflexivity.
 Qed.
 
@@ -380,5 +390,51 @@ Theorem validate_null_accepted : forall s dup tr a,
 Proof.
   intros s dup tr a Hr Ha. rewrite validate_eq, Hr.
   destruct a as [[sc|] [li|] [ma|]]; try reflexivity. discriminate.
+Qed.
+
+(* ------------------------------------------------------------------ *)
+(* the hypothesis is satisfiable: the example schema, with the references reachable
+   from its root *)
+Definition ex_items_tr : typeref :=
+  TR None (Atom None (Some (ListT (ex_named "item") RAssociative ["name"%string])) None) None.
+Definition ex_tags_tr : typeref :=
+  TR None (Atom None (Some (ListT ex_str RAssociative [])) None) None.
+Definition ex_mm_tr : typeref :=
+  TR None (Atom None None (Some (MapT [] ex_num RUnset))) None.
+
+Definition ex_R : typeref -> Prop := fun tr =>
+  In tr [ex_rt; ex_named "item"; ex_items_tr; ex_tags_tr; ex_mm_tr; ex_str; ex_num; empty_tr].
+
+Ltac ex_in_list :=
+  solve [unfold ex_R; simpl; repeat (first [left; reflexivity | right])].
+
+Ltac ex_cases H :=
+  unfold ex_R in H; simpl in H;
+  repeat (destruct H as [H|H]; [subst|]); [..|contradiction].
+
+Lemma ex_rt_in_R : ex_R ex_rt.
+Proof. ex_in_list. Qed.
+
+Lemma ex_schema_ok : schema_ok ex_schema ex_R.
+Proof.
+  constructor.
+  - intros tr a t Htr Hr Ha.
+    ex_cases Htr; vm_compute in Hr; inversion Hr; subst a; vm_compute in Ha;
+      try discriminate; inversion Ha; subst t; ex_in_list.
+  - intros tr a m k Htr Hr Ha.
+    ex_cases Htr; vm_compute in Hr; inversion Hr; subst a; vm_compute in Ha;
+      try discriminate; inversion Ha; subst m; unfold field_type; simpl;
+      repeat match goal with
+             | |- context [String.eqb k ?x] => destruct (String.eqb k x)
+             end; ex_in_list.
+  - intros tr a Htr Hr.
+    ex_cases Htr; vm_compute in Hr; inversion Hr; subst a; reflexivity.
+Qed.
+
+(* the theorem instantiated at the example *)
+Corollary ex_validate_exact : forall dup v, wf_value v = true ->
+  validate ex_schema dup ex_rt v = negb (conforms ex_schema ex_rt dup v).
+Proof.
+  intros dup v Hv. apply (validate_exact ex_schema ex_R); [exact ex_schema_ok|exact ex_rt_in_R|exact Hv].
 Qed.
 
